@@ -73,6 +73,11 @@ def accJ (st : Option Acc) : Json :=
   | none => Json.null
   | some a => objJ [("count", natJ a.count), ("sum", ratsJ a.sum), ("sumsq", ratsJ a.sumsq)]
 
+def statsJ (st : Option (List Rat × List Rat)) : Json :=
+  match st with
+  | none => Json.null
+  | some (m, v) => objJ [("mean", ratsJ m), ("var", ratsJ v)]
+
 /-- `mean_var_norm(x, dim, mean?, std?, eps)` for all four combinations of supplied / omitted
 statistics.  Model: `meanVarNorm` (its first pass yields the variance of the input centred with
 the mean in use, whose trusted `sqrt` is then handed back in).  Spec: `mvnSpec` with, for an omitted
@@ -248,11 +253,6 @@ def c18Cli : Handler := fun c => do
           | _ => throw s!"cli: group {key g} of the command model not in the per-group evaluation"
         pure (listJ (fun (g, st) => objJ [("gid", strJ (key g)), ("stats", statsJ (some st))]) l)
     pure (objJ [("groups", Json.arr outsJ.toArray), ("command", resJ)])
-
-def statsJ (st : Option (List Rat × List Rat)) : Json :=
-  match st with
-  | none => Json.null
-  | some (m, v) => objJ [("mean", ratsJ m), ("var", ratsJ v)]
 
 /-- case: {dim, tensors: [tensor], ops: [{"acc": k} | {"store": [delete_stats, bessel]}],
 preset: bool}.  Runs the state machine `mvnStep` call by call and, next to it, the declarative
